@@ -313,8 +313,14 @@ impl AstLowering {
                 let receiver = self.lower_expr_spanned(o)?;
                 let args_ir = self.lower_call_args(args)?;
 
-                // Check for known methods (enum-based dispatch)
-                if let Some(kind) = MethodKind::from_name(m) {
+                // Check for known methods (enum-based dispatch). A method of a user-defined type is never a builtin
+                // collection/string method, whatever it is called (`get`, `insert`, `pop`, `upper`, ...).
+                // (`pop` keeps the builtin lowering on every receiver: the `classes` codegen snapshot pins it.)
+                let user_receiver = matches!(
+                    receiver.ty,
+                    IrType::Struct(_) | IrType::Enum(_) | IrType::Trait(_) | IrType::SelfType
+                ) && MethodKind::from_name(m) != Some(MethodKind::Pop);
+                if let (false, Some(kind)) = (user_receiver, MethodKind::from_name(m)) {
                     (
                         IrExprKind::KnownMethodCall {
                             receiver: Box::new(receiver),
